@@ -4,7 +4,7 @@
 //! every block-size border 192*2^n + delta is reached *exactly* as zero prefix
 //! + crafted suffix, in every update form, with and without the size hint.
 
-use crate::c01::{case_json, form_name, run_case, start_generator, start_generator_dirty_kind, validate_hook, Chunk};
+use crate::c01::{case_json, form_from, form_name, run_case, start_generator, start_generator_dirty_kind, validate_hook, Chunk};
 use crate::common::*;
 use crate::corpus;
 use crate::gen_util::*;
@@ -19,6 +19,24 @@ pub fn replay(c: &Value) -> Result<(), String> {
         Some("warn") => warn_case(c["size"].as_u64().ok_or("size")?),
         Some("limit") => limit_case(c["size"].as_u64().ok_or("size")?),
         Some("hook_vs_real") => hook_vs_real(c["n"].as_u64().ok_or("n")?),
+        Some("border_late") => guard_case(|| {
+            // the late-declaration clones live in border_case itself: run exactly that
+            let zp = c["zero_prefix"].as_u64().ok_or("zero_prefix")?;
+            let mut chunks = vec![];
+            for ch in c["chunks"].as_array().ok_or("chunks")? {
+                chunks.push(Chunk {
+                    word: unhex(ch["word"].as_str().ok_or("word")?),
+                    count: ch["count"].as_u64().ok_or("count")? as usize,
+                    form: form_from(ch["form"].as_str().ok_or("form")?).ok_or("form name")?,
+                });
+            }
+            let mut acc = Acc::default();
+            border_case(zp, &chunks, c["hint"].as_u64(), &mut acc, "replay", c["dirty_start"].as_u64().unwrap_or(0) as u8);
+            match acc.violations.first() {
+                Some(v) => Err(v.what.clone()),
+                None => Ok(()),
+            }
+        }),
         _ => run_case(c),
     }
 }
@@ -141,6 +159,11 @@ fn border_case(zp: u64, chunks: &[Chunk], hint: Option<u64>, acc: &mut Acc, sigp
         c["dirty_start"] = json!(dirty);
         c
     };
+    let late_json = |zp: u64, chunks: &[Chunk], hint: Option<u64>| {
+        let mut c = case_json(zp, chunks, hint);
+        c["kind"] = json!("border_late");
+        c
+    };
     let mut g = if dirty > 0 { start_generator_dirty_kind(zp, dirty) } else { start_generator(zp) };
     let mut r = Ctph::new(zp);
     acc.evaluations += 1;
@@ -171,11 +194,43 @@ fn border_case(zp: u64, chunks: &[Chunk], hint: Option<u64>, acc: &mut Acc, sigp
             }
         }
     }
+    // late declarations (only in the undeclared runs): a clone that declares the true total after the first
+    // group of chunks and is fed in step from then on, and a clone that declares it after the last byte; both
+    // must finalize exactly like the undeclared generator
+    let total: u64 = zp + chunks.iter().map(|c| c.word.len() as u64 * c.count as u64).sum::<u64>();
+    let mut late: Option<Generator> = None;
     for (ci, c) in chunks.iter().enumerate() {
         for i in 0..c.count {
             let res = guarded(|| feed(&mut g, &c.word, c.form));
+            if let Some(l) = late.as_mut() {
+                if let Err(p) = guarded(|| feed(l, &c.word, c.form)) {
+                    acc.violation(format!("{} late", sigp), format!("panic in update after a mid-stream declaration: {}", p), late_json(zp, chunks, hint));
+                    return;
+                }
+            }
             r.feed_all(&c.word);
             let last = ci + 1 == chunks.len() && i + 1 == c.count;
+            if hint.is_none() && total <= MAX && res.is_ok() && ((ci == 0 && i + 1 == c.count) || last) {
+                let mut l = g.clone();
+                match guarded(|| l.set_fixed_input_size(total)) {
+                    Ok(Ok(())) => {}
+                    other => {
+                        acc.violation(format!("{} late", sigp), format!("declaring the true total {} after feeding returned {:?}", total, other), late_json(zp, chunks, hint));
+                        return;
+                    }
+                }
+                if last {
+                    for cand in [Some(&l), late.as_ref()].into_iter().flatten() {
+                        if let Some(m) = mismatch(cand, &r) {
+                            acc.violation(format!("{} late", sigp), format!("after a late declaration of the true total {}: {}", total, m), late_json(zp, chunks, hint));
+                            return;
+                        }
+                    }
+                    acc.bump("late_declarations_checked");
+                } else {
+                    late = Some(l);
+                }
+            }
             let bad = match res {
                 Err(p) => Some(format!("panic in update: {}", p)),
                 Ok(()) => {
@@ -187,7 +242,7 @@ fn border_case(zp: u64, chunks: &[Chunk], hint: Option<u64>, acc: &mut Acc, sigp
                 }
             };
             if let Some(m) = bad {
-                acc.violation(sigp.to_string(), m, case_json(zp, chunks, hint));
+                acc.violation(sigp.to_string(), m, late_json(zp, chunks, hint));
                 return;
             }
         }
